@@ -43,12 +43,15 @@ CHECKS = {
             "attribute valuation; C18_signature_shapes is the premise on the code (re-proved by computation each run).  The tie: repr shapes of random DSL trees "
             "computed by Repr.repr_shape in Coq vs the text repr() prints, and eval(repr(x)) == x on every element/property object.",
             "full on the model of the mechanism; literal printing is Python's own repr (trusted)"),
-    "C17": ("Coq theorems by induction on element trees (reflexivity, symmetry of Element.__eq__ incl. dict-valued keywords and literal equality) + refuted interchangeability witness + vm_compute correspondence of == on mutated pairs + verdict/serialization oracle",
-            "C17_reflexive/C17_symmetric hold for all well-formed element trees (27 keyword fields, properties, compositions, classes) and C17_literals_* for all "
-            "JSON literals; the interchangeability half is FALSE on the faithful model (C17_interchangeable_refuted: multipleOf 2 vs 2.0) and recorded as finding C17-K17; "
-            "outside that finding it is checked by the oracle (equal pairs: same verdicts, same serialization) on single-site mutations.  Equality.v is tied to the "
-            "code by evaluating elem_eq in Coq on every generated pair.",
-            "reflexive/symmetric full; interchangeable: refuted in general (finding), otherwise oracle + correspondence (no congruence theorem yet)"),
+    "C17": ("Coq theorems: reflexivity and symmetry of == on all well-formed trees, congruence of the literal equality (C17_literal_congruence), and interchangeability of equal reference-free elements (C17_equal_documents_same_meaning / C17_equal_same_verdict, by induction on the tree through the serialized documents) + refutation of interchangeability in general (K17) + vm_compute correspondence of == on every generated pair + verdict/serialization oracle",
+            "C17_reflexive/C17_symmetric hold for all well-formed element trees (27 keyword fields, properties, compositions, classes) and C17_literals_* for all JSON literals.  Interchangeability: "
+            "C17_literal_congruence (comparing any value with two ==-equal literals gives the same answer: numbers by exact value, arrays item-wise, dicts order-insensitively) and "
+            "C17_equal_same_verdict: two ==-equal reference-free elements (C03's fragment, well-formed literals, no float multipleOf parameter; executable EqFrag.goodb, proved sound) serialize to "
+            "documents with the same Draft-6 meaning on every value and accept the same values whenever neither call crashes - dict-valued keywords in any order, thresholds as int or the equal float.  "
+            "The statement is FALSE without the multipleOf premise (C17_interchangeable_refuted: multipleOf 2 vs 2.0, finding K17).  Object classes (where == feeds de-duplication and "
+            "_from_definitions) are outside the theorem: there equal pairs are compared on verdicts and serialization by the oracle.  Equality.v is tied to the code by evaluating elem_eq in Coq on "
+            "every generated pair (the run counts the equal pairs the theorem applies to).",
+            "reflexive/symmetric full; interchangeable: proved for reference-free elements without float multipleOf, refuted in general (finding K17), object classes by oracle + correspondence"),
     "C08": ("Coq theorem over all bind histories (re-binding well-bound properties is the identity; every prefix too) + write set regenerated from /repo and checked against the audited one + before/after identity-dump oracle + _Property.bind correspondence",
             "C08_pure/C08_repeatable: from a well-bound store any finite sequence of the binds that calls perform leaves every shared property cell unchanged; "
             "C08_writes_audited: every store statement in statham/schema (outside the parser), as re-read from /repo by the translator on each run, is an audited "
@@ -95,12 +98,13 @@ CHECKS = {
             "float beyond 2^53, member collision) are refuted in Coq and recorded as findings.  Each run evaluates Validate.build in Coq on every generated (tree, value), requires the identical "
             "constructed result from the implementation, counts the cases satisfying safeb, and walks input vs returned model on the implementation.",
             "full under the named premise; that the only extra result keys are declared properties is by correspondence"),
-    "C07": ("Coq theorem by case analysis over every branch of parse_element (the returned element carries the schema's default, all shapes, all default values) + signature obligations regenerated from /repo + default x shape x position oracle through parser, both serializers and the executed module + parse-tree correspondence",
+    "C07": ("Coq theorems: by case analysis over every branch of parse_element (the returned element carries the schema's default, all shapes, all default values) and on the JSON serializer model (every element is written with exactly its default and description, C07_serialized_*) + signature obligations regenerated from /repo + default x shape x position oracle through parser, both serializers and the executed module + parse-tree correspondence",
             "C07_parsed_default is proved for every schema object, parse state and default value on the parser model (which includes the branches repaired by fixes "
-            "804a592/773e603); C07_default_in_every_signature is the premise on the code.  The serializer halves and 'not moved/shared' are decided by the oracle: 20 "
-            "default values x 23 shapes x 8 positions, type-strict comparison on the parsed element, on every other element of the tree, in serialize_json and in the "
-            "executed serialize_python output; descriptions through class description, JSON and executed docstring (finding K4 for quote/backslash descriptions).",
-            "parser half proved; serializers and docstring by oracle (docstring lexing is Python's own)"),
+            "804a592/773e603); C07_serialized_default / C07_serialized_description: for every element other than Nothing() and any caller definitions the JSON serializer model writes an object whose "
+            "`default` is exactly the element's default (absent when it has none) and whose `description` is its description; C07_default_in_every_signature is the premise on the code.  The Python "
+            "serializer half and 'not moved/shared' are decided by the oracle: 20 default values x 23 shapes x 8 positions, type-strict comparison on the parsed element, on every other element of "
+            "the tree, in serialize_json and in the executed serialize_python output; descriptions through class description, JSON and executed docstring (finding K4 for quote/backslash descriptions).",
+            "parser and JSON serializer halves proved; Python serializer and docstring by oracle (docstring lexing is Python's own)"),
     "C10": ("Coq theorem by induction on the element tree (Validate.build never yields Crash when float(int) and the multipleOf kernel succeed on the numbers in play; fully closed integer instance; refuted witness for K8) + binary64 (SpecFloat) correspondence on an extreme-value stream + exception-class oracle on calls and parses",
             "C10_call_total is proved for every element tree, oracle and value over an explicit Crash outcome fed by the model of Python arithmetic (PyNum.v); "
             "C10_integers_total has no arithmetic premise; termination is by structural recursion.  The float kernel itself (SFdiv/normalisation never producing NaN, "
